@@ -1513,6 +1513,36 @@ class ReceivePackHandler(PackHandler):
 
         atomic = self.has_capability(CAPABILITY_ATOMIC)
 
+        def check_update(sha: ObjectID) -> bytes | None:
+            """Status for an update that must not be attempted, else None."""
+            if sha == zero_sha:
+                if CAPABILITY_DELETE_REFS not in self.capabilities():
+                    raise GitProtocolError(
+                        "Attempted to delete refs without delete-refs capability."
+                    )
+            elif sha not in self.repo.object_store:
+                # never leave a ref naming an object we do not have
+                return b"missing necessary objects"
+            return None
+
+        def apply_update(oldsha: ObjectID, sha: ObjectID, ref: Ref) -> bytes:
+            """Compare-and-swap one ref; the status reflects what happened."""
+            try:
+                if sha == zero_sha:
+                    try:
+                        updated = self.repo.refs.remove_if_equals(ref, oldsha)
+                    except all_exceptions:
+                        return b"failed to delete"
+                else:
+                    try:
+                        updated = self.repo.refs.set_if_equals(ref, oldsha, sha)
+                    except all_exceptions:
+                        return b"failed to write"
+            except KeyError:
+                return b"bad ref"
+            # the ref no longer holds the old value the client named
+            return b"ok" if updated else b"failed to update ref"
+
         if atomic:
             # Atomic push: validate all refs first, then apply all or none
             ref_results: list[tuple[Ref, bytes]] = []
@@ -1524,18 +1554,20 @@ class ReceivePackHandler(PackHandler):
                 hook_error = self._on_update(ref, oldsha, sha)
                 if hook_error:
                     ref_status = hook_error
-                    has_failure = True
                 else:
                     try:
-                        if sha == zero_sha:
-                            if CAPABILITY_DELETE_REFS not in self.capabilities():
-                                raise GitProtocolError(
-                                    "Attempted to delete refs without "
-                                    "delete-refs capability."
-                                )
+                        ref_status = check_update(sha) or b"ok"
+                        if ref_status == b"ok":
+                            try:
+                                current = self.repo.refs[ref]
+                            except KeyError:
+                                current = zero_sha
+                            if current != oldsha:
+                                ref_status = b"failed to update ref"
                     except KeyError:
                         ref_status = b"bad ref"
-                        has_failure = True
+                if ref_status != b"ok":
+                    has_failure = True
 
                 ref_results.append((ref, ref_status))
 
@@ -1548,53 +1580,45 @@ class ReceivePackHandler(PackHandler):
                         yield (ref, status)
                 return
 
-            # All validations passed; apply all ref updates
+            # All validations passed; apply all ref updates, undoing them
+            # if one is lost to a concurrent writer after validation
+            applied: list[tuple[ObjectID, ObjectID, Ref]] = []
             for oldsha, sha, ref in refs:
-                ref_status = b"ok"
-                try:
-                    if sha == zero_sha:
+                ref_status = apply_update(oldsha, sha, ref)
+                if ref_status != b"ok":
+                    for done_old, done_new, done_ref in reversed(applied):
                         try:
-                            self.repo.refs.remove_if_equals(ref, oldsha)
-                        except all_exceptions:
-                            ref_status = b"failed to delete"
-                    else:
-                        try:
-                            self.repo.refs.set_if_equals(ref, oldsha, sha)
-                        except all_exceptions:
-                            ref_status = b"failed to write"
-                except KeyError:
-                    ref_status = b"bad ref"
-                yield (ref, ref_status)
+                            if done_old == zero_sha:
+                                self.repo.refs.remove_if_equals(done_ref, done_new)
+                            elif done_new == zero_sha:
+                                self.repo.refs.add_if_new(done_ref, done_old)
+                            else:
+                                self.repo.refs.set_if_equals(
+                                    done_ref, done_new, done_old
+                                )
+                        except (*all_exceptions, KeyError):
+                            pass
+                    for _, _, other_ref in refs:
+                        if other_ref == ref:
+                            yield (other_ref, ref_status)
+                        else:
+                            yield (other_ref, b"atomic push failed")
+                    return
+                applied.append((oldsha, sha, ref))
+            for _, _, ref in refs:
+                yield (ref, b"ok")
         else:
             for oldsha, sha, ref in refs:
-                ref_status = b"ok"
-
                 # Run update hook for this ref
                 hook_error = self._on_update(ref, oldsha, sha)
                 if hook_error:
                     # Update hook declined this ref
-                    ref_status = hook_error
-                    yield (ref, ref_status)
+                    yield (ref, hook_error)
                     continue
 
-                try:
-                    if sha == zero_sha:
-                        if CAPABILITY_DELETE_REFS not in self.capabilities():
-                            raise GitProtocolError(
-                                "Attempted to delete refs without "
-                                "delete-refs capability."
-                            )
-                        try:
-                            self.repo.refs.remove_if_equals(ref, oldsha)
-                        except all_exceptions:
-                            ref_status = b"failed to delete"
-                    else:
-                        try:
-                            self.repo.refs.set_if_equals(ref, oldsha, sha)
-                        except all_exceptions:
-                            ref_status = b"failed to write"
-                except KeyError:
-                    ref_status = b"bad ref"
+                ref_status = check_update(sha)
+                if ref_status is None:
+                    ref_status = apply_update(oldsha, sha, ref)
                 yield (ref, ref_status)
 
     def _report_status(self, status: Sequence[tuple[bytes, bytes]]) -> None:
